@@ -20,6 +20,7 @@ class ChildFailed(Exception):
 
 
 CRASH_SIGNALS = {}
+HANG_SIGNAL = int(signal.SIGALRM)      # the child's own wall-clock backstop fired
 for _n in ('SIGSEGV', 'SIGBUS', 'SIGFPE', 'SIGILL', 'SIGABRT'):
     if hasattr(signal, _n):
         CRASH_SIGNALS[int(getattr(signal, _n))] = _n
